@@ -939,6 +939,7 @@ type specEnv struct {
 	locals map[string]*types.Var
 	sigOverride *types.Signature
 	noUnfold    bool
+	noLocals    bool // a callee's contract evaluated at a call site: the caller's local variables are not in scope
 	beExpand    bool
 	revealing   bool
 	assume      bool                  // evaluating a hypothesis: existentials are skolemised
@@ -1102,8 +1103,10 @@ func (env *specEnv) eval(e ast.Expr) Value {
 		if v, ok := env.names[x.Name]; ok {
 			return v
 		}
-		if v, ok := env.lookupLocal(x.Name); ok {
-			return v
+		if !env.noLocals {
+			if v, ok := env.lookupLocal(x.Name); ok {
+				return v
+			}
 		}
 		if gd, ok := ex.eng.ghosts[x.Name]; ok && gd.Var {
 			if v, ok := env.st.ghost[x.Name]; ok {
@@ -1393,6 +1396,9 @@ func (env *specEnv) unify(a, b Value) (*Term, *Term) {
 		return ta, conv(cb, ta.Sort)
 	case bok && ca != nil:
 		return conv(ca, tb.Sort), tb
+	}
+	if os.Getenv("GOVC_TRACE") != "" {
+		panic(fmt.Sprintf("cannot unify %T and %T", a, b))
 	}
 	env.fail("cannot unify %T and %T", a, b)
 	return nil, nil
@@ -2078,6 +2084,7 @@ func (env *specEnv) call(c *ast.CallExpr) Value {
 			}
 		}
 		sub.names["self"] = self
+		sub.noLocals = true
 		return sub.eval(gd.Rep)
 	}
 	if gd, ok := ex.eng.ghosts[name]; ok && !gd.Var {
@@ -2095,6 +2102,19 @@ func (env *specEnv) call(c *ast.CallExpr) Value {
 		key := fmt.Sprintf("%s(%s%s)", name, pv.Obj, pathKey(pv.Path))
 		if v, ok := env.st.ghost[key]; ok {
 			return v
+		}
+		if gd.Rep != nil && pv.Obj.fresh && !strings.HasPrefix(pv.Obj.name, "result") && env.st.gver[pv.Obj] == 0 {
+			// an object allocated in the function under verification whose abstract state was never assigned through
+			// a contract (new(T), a literal, a local variable): its ghost field is, by definition, the representation
+			// expression over its current contents - also outside the home package (e.g. new(SM2Element) is canonical)
+			sub := *env
+			sub.names = map[string]Value{}
+			for k, v := range env.names {
+				sub.names[k] = v
+			}
+			sub.names["self"] = pv
+			sub.noLocals = true
+			return sub.eval(gd.Rep)
 		}
 		gv := Var(fmt.Sprintf("ghost.%s@v%d", key, env.st.gver[pv.Obj]), gd.Sort)
 		if freshBorn[gv] == 0 {
@@ -2123,6 +2143,21 @@ func (env *specEnv) call(c *ast.CallExpr) Value {
 		for i, p := range m.Params {
 			sub.names[p] = arg(i)
 		}
+		// hygiene: a macro body sees its parameters, the enclosing names (function parameters, bound variables), other
+		// macros and package-level names - not the local variables of whatever function it is expanded in, unless the
+		// macro itself mentions one that is no macro, parameter or global (kept for the older contracts that do)
+		if macroIsClosed(ex, m) {
+			sub.noLocals = true
+			sub.names = map[string]Value{}
+			for i, p := range m.Params {
+				sub.names[p] = arg(i)
+			}
+			for _, k := range []string{"result", "result0", "result1", "result2", "self"} {
+				if v, ok := env.names[k]; ok {
+					sub.names[k] = v
+				}
+			}
+		}
 		return sub.eval(m.Body)
 	}
 	if d, ok := specDefs[name]; ok {
@@ -2149,6 +2184,87 @@ func (env *specEnv) call(c *ast.CallExpr) Value {
 	}
 	env.fail("unknown spec function %s", name)
 	return nil
+}
+
+var macroClosed = map[*Macro]bool{}
+var macroClosedKnown = map[*Macro]bool{}
+
+// macroIsClosed: every free identifier of the macro body is a parameter, a bound variable, a macro, a ghost or a
+// package-level name (constants such as P). Only then is the body evaluated without the local variables of the
+// function it is expanded in; a macro that mentions some other name keeps the older, permissive lookup.
+func macroIsClosed(ex *exec, m *Macro) bool {
+	if macroClosedKnown[m] {
+		return macroClosed[m]
+	}
+	closed := true
+	bound := map[string]int{}
+	for _, p := range m.Params {
+		bound[p]++
+	}
+	var walk func(e ast.Expr)
+	walk = func(e ast.Expr) {
+		switch x := e.(type) {
+		case *ast.Ident:
+			switch x.Name {
+			case "true", "false", "nil", "result", "result0", "result1", "result2", "self":
+				return
+			}
+			if bound[x.Name] > 0 || ex.eng.macros[x.Name] != nil {
+				return
+			}
+			if _, g := ex.eng.ghosts[x.Name]; g {
+				return
+			}
+			if ex.root != nil && ex.root.Pkg.Types.Scope().Lookup(x.Name) != nil {
+				return
+			}
+			closed = false
+		case *ast.BinaryExpr:
+			walk(x.X)
+			walk(x.Y)
+		case *ast.UnaryExpr:
+			walk(x.X)
+		case *ast.ParenExpr:
+			walk(x.X)
+		case *ast.StarExpr:
+			walk(x.X)
+		case *ast.SelectorExpr:
+			walk(x.X)
+		case *ast.IndexExpr:
+			walk(x.X)
+			walk(x.Index)
+		case *ast.SliceExpr:
+			walk(x.X)
+			if x.Low != nil {
+				walk(x.Low)
+			}
+			if x.High != nil {
+				walk(x.High)
+			}
+		case *ast.CallExpr:
+			args := x.Args
+			if id, ok := x.Fun.(*ast.Ident); ok && len(args) > 0 {
+				switch id.Name {
+				case "forall", "exists", "forallInt", "existsInt":
+					if b, ok := args[0].(*ast.Ident); ok {
+						bound[b.Name]++
+						for _, a := range args[1:] {
+							walk(a)
+						}
+						bound[b.Name]--
+						return
+					}
+				}
+			}
+			for _, a := range args {
+				walk(a)
+			}
+		}
+	}
+	walk(m.Body)
+	macroClosedKnown[m] = true
+	macroClosed[m] = closed
+	return closed
 }
 
 func (env *specEnv) toTerm(v Value, w int) *Term {
